@@ -80,13 +80,17 @@ class AirModel:
 
     def eval_main(self, opcode=None, limit=None):
         I = Interp(self.F)
+        saved = Poly.LIMIT
         if limit:
             Poly.LIMIT = limit
-        n = self.total_main(I)
-        result = [Poly() for _ in range(n)]
-        fr = self.frame(opcode)
-        per = [Poly.var("p%d" % i) for i in range(self.nper + 8)]
-        I.call(self.fn_eval.id, [Ptr([self.air_self(I)], 0), Ptr([fr], 0), SlicePtr(per, 0, len(per)), SlicePtr(result, 0, n)])
+        try:
+            n = self.total_main(I)
+            result = [Poly() for _ in range(n)]
+            fr = self.frame(opcode)
+            per = [Poly.var("p%d" % i) for i in range(self.nper + 8)]
+            I.call(self.fn_eval.id, [Ptr([self.air_self(I)], 0), Ptr([fr], 0), SlicePtr(per, 0, len(per)), SlicePtr(result, 0, n)])
+        finally:
+            Poly.LIMIT = saved      # the size limit is a per-evaluation setting, not a global one
         return result, self.ranges(I), I
 
     def eval_aux(self):
